@@ -15,6 +15,7 @@ import (
 	"sigs.k8s.io/kustomize/kyaml/openapi"
 	kyaml "sigs.k8s.io/kustomize/kyaml/yaml"
 	sigsyaml "sigs.k8s.io/yaml"
+	yamlv2 "sigs.k8s.io/yaml/goyaml.v2"
 	yaml "sigs.k8s.io/yaml/goyaml.v3"
 )
 
@@ -193,6 +194,24 @@ func schTerm(s *openapi.ResourceSchema, nodes []*yaml.Node, depth int) string {
 		strings.Join(fields, "; "), el)
 }
 
+// valueHasType20: the oracle behind the model parameter [hastype] — the value, read as an unquoted YAML 1.1
+// scalar by go-yaml v2, is of the OpenAPI type t (what compatibility.go's unexported valueHasType decides).
+func valueHasType20(value, t string) bool {
+	var i1 interface{}
+	if err := yamlv2.Unmarshal([]byte(value), &i1); err != nil {
+		return false
+	}
+	switch i1.(type) {
+	case bool:
+		return t == "boolean"
+	case int, int64, uint64:
+		return t == "integer" || t == "number"
+	case float64:
+		return t == "number"
+	}
+	return false
+}
+
 // typeMeta20 reads kind / apiVersion the way FormatFilter.Filter does (first field of that name, its Value).
 func typeMeta20(n *kyaml.RNode) (kind, api string, ok bool) {
 	cls, _ := protect(func() error {
@@ -328,6 +347,9 @@ func wlOn20(kind, api string) bool {
 func seqKey20(e *yaml.Node, f string) string {
 	if f == "" {
 		return e.Value
+	}
+	if e.Kind != yaml.MappingNode {
+		return "" // only a mapping element carries a sort field
 	}
 	v := ""
 	for a := 0; a+1 < len(e.Content); a += 2 {
@@ -641,13 +663,8 @@ func laws20(c case20) (vs []verdict20, info map[string]string) {
 			info["idempotence"] = "s3-roundtrip-unstable"
 			break
 		}
+		// (both idempotence findings are repaired in /repo: every failure is an unlisted violation)
 		class := "idempotence/other"
-		switch {
-		case f.nestedSeqKeyed:
-			class = "idempotence/nested-seq-in-keyed-list"
-		case f.dupSortFieldBig:
-			class = "idempotence/dup-sortfield-unstable-sort"
-		}
 		vs = append(vs, verdict20{"idempotent", class, "fmt(fmt x) != fmt x\n--- fmt x\n" + y + "--- fmt(fmt x)\n" + z})
 	default:
 		info["idempotence"] = "checked"
@@ -685,12 +702,6 @@ func laws20(c case20) (vs []verdict20, info map[string]string) {
 			}
 			if where, bad := unsorted20(on.YNode(), "", wlOn20(kind, api)); bad {
 				class := "order/not-sorted"
-				switch {
-				case f.nestedSeqKeyed:
-					class = "idempotence/nested-seq-in-keyed-list" // same defect: the key read before the element was formatted
-				case f.dupSortFieldBig:
-					class = "idempotence/dup-sortfield-unstable-sort"
-				}
 				vs = append(vs, verdict20{"canonical_order", class, "formatted output is not in canonical order at " + where})
 			}
 		}
@@ -728,8 +739,6 @@ func laws20(c case20) (vs []verdict20, info map[string]string) {
 					class := "value/output-unreadable"
 					if f.alias && strings.Contains(ey.Error(), "unknown anchor") {
 						class = "reparse/alias-before-anchor"
-					} else if c.UseSchema && strings.Contains(ey.Error(), "cannot decode !!") {
-						class = "schema/mismatched-scalar-retagged"
 					}
 					vs = append(vs, verdict20{"value_preserved", class, "output document does not parse: " + ey.Error()})
 					continue
@@ -1045,7 +1054,7 @@ func schemaLaw20(c case20, y string) (vs []verdict20, nStr, nInt int) {
 					}
 				case "integer", "boolean", "number":
 					nInt++
-					if kyaml.IsValueNonString(x.Value) {
+					if kyaml.IsValueNonString(x.Value) && valueHasType20(x.Value, sp.typ) {
 						if _, isStr := site.val.(string); isStr {
 							vs = append(vs, verdict20{"schema_quote", "schema/number-left-quoted",
 								fmt.Sprintf("%s: %s-typed scalar %q is read back as the string %#v", sp.path, sp.typ, x.Value, site.val)})
@@ -1268,10 +1277,8 @@ func runImpl20(c case20, withWritten bool) result20 {
 		return res
 	}
 	res.facts = factsOf20(nodes)
-	if res.facts.bigEquiv {
-		// sort.Sort is not stable beyond 12 elements: the order among equal sort keys is not claimed
-		res.skipWhy = "equal-sort-keys-beyond-12"
-	}
+	// (the formatter sorts with sort.Stable: the model's stable sort is exact for every size, equal sort
+	// keys included — nothing is skipped for that reason any more)
 	// input terms + schema projection + nonstr table
 	vals := map[string]bool{}
 	docs := []string{}
@@ -1287,10 +1294,16 @@ func runImpl20(c case20, withWritten bool) result20 {
 		scalarValues(n.YNode(), vals)
 	}
 	nonstr := []string{}
+	hastype := []string{}
 	if c.UseSchema {
 		for _, s := range sortedKeys(vals) {
 			if kyaml.IsValueNonString(s) {
 				nonstr = append(nonstr, s)
+				for _, t := range []string{"boolean", "integer", "number"} {
+					if valueHasType20(s, t) {
+						hastype = append(hastype, fmt.Sprintf("(%s, %s)", coqStr(s), coqStr(t)))
+					}
+				}
 			}
 		}
 	}
@@ -1402,7 +1415,8 @@ func runImpl20(c case20, withWritten bool) result20 {
 	if res.skipWhy != "" {
 		return res
 	}
-	res.term = fmt.Sprintf("(KDocs [%s] %s %s %s %s %s %s)", strings.Join(docs, "; "), coqStrList(nonstr), cls, outTerm, written,
+	res.term = fmt.Sprintf("(KDocs [%s] %s [%s] %s %s %s %s %s)", strings.Join(docs, "; "), coqStrList(nonstr),
+		strings.Join(hastype, "; "), cls, outTerm, written,
 		coqStrList(dcIn), coqStrList(dcOut))
 	res.ok = true
 	return res
